@@ -102,3 +102,13 @@ Definition id_handover_casfail_src := id_handover_casfail_prog o_free_link_store
 Definition id_handover_casfail_src_safe := id_handover_casfail_safe o_free_link_store o_free_cas o_alloc_cas_fail.
 Definition box_take_src := box_take_prog o_emplace_version o_take_cas Release Acquire.
 Definition box_take_src_safe := box_take_safe o_emplace_version o_take_cas Release Acquire.
+
+(* ---- grouped for the check's search: the first skeleton of a group that is not safe ---- *)
+Definition id_link_group_safe : bool := id_link_src_safe && id_link_casfail_src_safe && id_chain_src_safe.
+Definition id_link_group_prog : list (list instr) :=
+  if negb id_link_src_safe then id_link_src else if negb id_link_casfail_src_safe then id_link_casfail_src else id_chain_src.
+Definition id_link_group_bad : outcome -> bool :=
+  if negb id_link_src_safe then id_link_bad else if negb id_link_casfail_src_safe then id_link_bad else id_chain_bad.
+Definition id_handover_group_safe : bool := id_handover_src_safe && id_handover_casfail_src_safe.
+Definition id_handover_group_prog : list (list instr) :=
+  if negb id_handover_src_safe then id_handover_src else id_handover_casfail_src.
